@@ -1,7 +1,11 @@
 package c09
 
 import (
+	"bytes"
 	"fmt"
+	"image"
+	"image/color"
+	"image/png"
 	"io"
 	"strings"
 
@@ -19,15 +23,56 @@ func init() {
 	logger.WarningLogger.SetOutput(io.Discard)
 }
 
-// imgCache is shared by all the documents of a worker: the only image ever fetched is the
-// tiny data: URI of the alphabet, so that sharing the cache cannot couple two cases.
+// imgCache is shared by all the documents of a worker: the only images ever fetched are the
+// tiny data: URI of the alphabet, the served raster image and the URL that does not exist (the
+// failure is cached as well), so that sharing the cache cannot couple two cases.
 var imgCache = images.NewCache()
+
+// The raster image of the alphabet, served at pngURL by the fetcher of the harness (a 4x4 PNG
+// made in memory: no file of the repository is needed). missingURL is never served.
+const (
+	pngURL     = "http://h/img.png"
+	missingURL = "http://h/none.png"
+)
+
+var pngBytes = func() []byte {
+	im := image.NewNRGBA(image.Rect(0, 0, 4, 4))
+	for i := 0; i < 16; i++ {
+		im.Set(i%4, i/4, color.NRGBA{R: uint8(16 * i), G: 128, B: 255 - uint8(16*i), A: 255})
+	}
+	var buf bytes.Buffer
+	if err := png.Encode(&buf, im); err != nil {
+		panic(err)
+	}
+	return buf.Bytes()
+}()
+
+// fetch is the URL fetcher of every document: http://h/img.png is the raster image, any other
+// http:// URL fails, everything else (data: URIs) goes to the default fetcher.
+func fetch(url string) (utils.RemoteRessource, error) {
+	if url == pngURL {
+		return utils.RemoteRessource{Content: bytes.NewReader(pngBytes), MimeType: "image/png", RedirectedUrl: url}, nil
+	}
+	if strings.HasPrefix(url, "http://") {
+		return utils.RemoteRessource{}, fmt.Errorf("harness: no such resource %s", url)
+	}
+	return utils.DefaultUrlFetcher(url)
+}
+
+// built is the formatting structure of one document: the box tree and the list of footnote
+// boxes (taken out of the tree; a ::footnote-call box of the tree points to each of them).
+type built struct {
+	root      bo.Box
+	footnotes []bo.Box
+}
 
 // buildTree runs the real pipeline up to the formatting structure (no layout, no fonts):
 // tree.NewHTML -> tree.GetAllComputedStyles -> boxes.BuildFormattingStructure.
 // It must be called under ctx.Guard.
-func buildTree(html string) bo.Box {
-	doc, err := tree.NewHTML(utils.InputString(html), "", nil, "")
+func buildTree(html string) bo.Box { return buildDoc(html).root }
+
+func buildDoc(html string) built {
+	doc, err := tree.NewHTML(utils.InputString(html), "", fetch, "")
 	if err != nil {
 		panic("tree.NewHTML: " + err.Error())
 	}
@@ -38,7 +83,17 @@ func buildTree(html string) bo.Box {
 	}
 	tr := tree.NewTargetCollector()
 	var fn []bo.Box
-	return bo.BuildFormattingStructure(doc.Root, style, bo.URLResolver{Fetch: doc.UrlFetcher, FetchImage: imgFetcher}, "", &tr, cs, &fn)
+	root := bo.BuildFormattingStructure(doc.Root, style, bo.URLResolver{Fetch: doc.UrlFetcher, FetchImage: imgFetcher}, "", &tr, cs, &fn)
+	return built{root: root, footnotes: fn}
+}
+
+// footnoteArea does what layout does with the footnotes of a page (html/layout/layout.go,
+// pages.go: CreateAnonymousBox(Deepcopy(footnoteArea))): the footnote boxes become the children
+// of a block box and the anonymous-box passes run on it. Only then is the formatting structure
+// of the footnotes complete. It must be called under ctx.Guard.
+func footnoteArea(root bo.Box, footnotes []bo.Box) bo.Box {
+	area := bo.BlockBoxAnonymousFrom(root, append([]bo.Box(nil), footnotes...))
+	return bo.CreateAnonymousBox(area)
 }
 
 // elemID returns the id attribute of the element a box was generated for ("" if none).
@@ -73,6 +128,12 @@ func dumpTree(b bo.Box) string {
 		}
 		if !f.IsInNormalFlow() {
 			sb.WriteString(" out-of-flow")
+		}
+		if f.IsRunning() {
+			sb.WriteString(" running")
+		}
+		if f.Footnote != nil {
+			sb.WriteString(" call-of:" + ownerKey(f.Footnote))
 		}
 		if bo.TableCellT.IsInstance(b) {
 			fmt.Fprintf(&sb, " x=%d cs=%d rs=%d", f.GridX, f.Colspan, f.Rowspan)
